@@ -117,10 +117,9 @@ func (st *vfsStack) Append() (uint64, error) {
 	st.mu.Lock()
 	defer st.mu.Unlock()
 	r := st.head + 1
-	b := &common.Beacon{Round: r, Signature: vfsSig(r)}
-	if st.chained {
-		b.PreviousSig = st.last
-	}
+	// (the aggregator hands over the previous signature its partials were sent with on every scheme; on unchained
+	// ones the scheme store drops it before the beacon is written)
+	b := &common.Beacon{Round: r, Signature: vfsSig(r), PreviousSig: append([]byte(nil), st.last...)}
 	if err := st.cb.Put(context.Background(), b); err != nil {
 		return r, err
 	}
@@ -350,6 +349,13 @@ func c11Check(run *vfRun, c c11Case, st *vfsStack, cons *vfsConsumer, label stri
 		if !bytes.Equal(pk[i].Signature, vfsSig(r)) {
 			run.Violation(fmt.Sprintf("C11/delivered-differs-from-stored/%s/%s", sched, be), fmt.Sprintf("round %d", r), info)
 			ok = false
+		} else if stored, err := st.base.Get(context.Background(), r); err == nil && stored != nil && !bytes.Equal(stored.PreviousSig, pk[i].PreviousSignature) {
+			// every field: what a live stream hands out must be what a catch-up stream reads back later
+			chainedStr := map[bool]string{true: "chained", false: "unchained"}[c.Chained]
+			run.Violation(fmt.Sprintf("C11/delivered-differs-from-stored/previous-signature/%s/%s", chainedStr, be),
+				fmt.Sprintf("round %d delivered with previous signature %q, the store holds %q", r, pk[i].PreviousSignature, stored.PreviousSig), info)
+			ok = false
+			break
 		}
 	}
 	if mustBeComplete && ok {
